@@ -38,6 +38,8 @@ type c15Script struct {
 	issCase       string
 	fetcherCalled int
 	asHostsAsked  []string // hosts of authorization-server metadata requests
+	prmNamesAS    string   // the authorization server the (valid) resource metadata names; "" = https://as.example
+	tokenAlwaysOK bool     // the token endpoint always answers with a token (no choice)
 }
 
 type c15RT struct{ s *c15Script }
@@ -66,7 +68,11 @@ func (rt c15RT) RoundTrip(req *http.Request) (*http.Response, error) {
 		}
 		switch s.ch.Fault("prm-answer", 8) {
 		case 0:
-			return c15JSON(200, doc(resource, "https://as.example")), nil
+			as := "https://as.example"
+			if s.prmNamesAS != "" {
+				as = s.prmNamesAS
+			}
+			return c15JSON(200, doc(resource, as)), nil
 		case 1:
 			return c15JSON(200, doc("https://evil.example/mcp", "https://as-of-mismatching-prm.example")), nil
 		case 2:
@@ -142,7 +148,11 @@ func (rt c15RT) RoundTrip(req *http.Request) (*http.Response, error) {
 			cid, _ = url.QueryUnescape(user)
 		}
 		s.tokenRequests = append(s.tokenRequests, fmt.Sprintf("host=%s doc=%s client_id=%s", u.Host, u.Query().Get("doc"), cid))
-		switch s.ch.Free("token-answer", 3) {
+		ta := 0
+		if !s.tokenAlwaysOK {
+			ta = s.ch.Free("token-answer", 3)
+		}
+		switch ta {
 		case 0:
 			return c15JSON(200, `{"access_token":"fresh","token_type":"bearer","expires_in":3600}`), nil
 		case 1:
@@ -299,6 +309,107 @@ func c15Run(ch *verifx.Chooser) (obs, bad, sig string, steps int) {
 	return fmt.Sprintf("%s config=%s requests=%d token-requests=%d", cls, clientCfg, len(s.urls), len(s.tokenRequests)), bad, sig, steps
 }
 
+// c15TwoRounds: one handler, two authorization rounds.  Round 1 runs against https://as.example and
+// succeeds; then the resource answers 401 again and its (valid) metadata names either the same or a
+// different, equally valid authorization server.  Credentials pre-registered for as.example must
+// never be presented to the other server, a failed second round leaves the first round's token in
+// place, and a successful one went through a fresh state check.
+func c15TwoRounds(ch *verifx.Chooser) (obs, bad, sig string, steps int) {
+	fail := func(s, format string, a ...any) {
+		if bad == "" {
+			sig, bad = "c15 two-rounds "+s, fmt.Sprintf(format, a...)
+		}
+	}
+	s := &c15Script{ch: ch, tokenAlwaysOK: true}
+	cfg := &AuthorizationCodeHandlerConfig{RedirectURL: "http://localhost:1/cb", Client: &http.Client{Transport: c15RT{s}}}
+	initial := c15Static{}
+	cfg.InitialTokenSource = initial
+	clientCfg := []string{"prereg-for-as.example", "prereg-no-issuer", "cimd", "dcr"}[ch.Free("client-config", 4)]
+	switch clientCfg {
+	case "prereg-for-as.example":
+		cfg.PreregisteredClient = &oauthex.ClientCredentials{ClientID: "prereg", Issuer: "https://as.example"}
+	case "prereg-no-issuer":
+		cfg.PreregisteredClient = &oauthex.ClientCredentials{ClientID: "prereg"}
+	case "cimd":
+		cfg.ClientIDMetadataDocumentConfig = &ClientIDMetadataDocumentConfig{URL: "https://client.example/meta.json"}
+	case "dcr":
+		cfg.DynamicClientRegistrationConfig = &DynamicClientRegistrationConfig{Metadata: &oauthex.ClientRegistrationMetadata{RedirectURIs: []string{"http://localhost:1/cb"}}}
+	}
+	secondAS := []string{"https://as.example", "https://as-b.example"}[ch.Free("second-round-authorization-server", 2)]
+	secondState := ch.Free("second-round-returned-state", 2) // 0: echoed, 1: altered
+	round := 1
+	var issuersUsed []string
+	cfg.AuthorizationCodeFetcher = func(ctx context.Context, args *AuthorizationArgs) (*AuthorizationResult, error) {
+		s.fetcherCalled++
+		au, err := url.Parse(args.URL)
+		if err != nil {
+			return nil, err
+		}
+		issuersUsed = append(issuersUsed, au.Scheme+"://"+au.Host)
+		st := au.Query().Get("state")
+		if round == 2 && secondState == 1 {
+			st += "x"
+		}
+		return &AuthorizationResult{Code: fmt.Sprintf("code-%d", round), State: st}, nil
+	}
+	h, err := NewAuthorizationCodeHandler(cfg)
+	if err != nil {
+		return "config-rejected", "", "", 0
+	}
+	authorize := func() error {
+		req, _ := http.NewRequest("POST", c15MCP, nil)
+		resp := &http.Response{StatusCode: 401, Header: http.Header{}, Body: io.NopCloser(strings.NewReader(""))}
+		resp.Header.Set("WWW-Authenticate", `Bearer resource_metadata="https://mcp.example/prm-from-challenge"`)
+		return h.Authorize(context.Background(), req, resp)
+	}
+	if err := authorize(); err != nil {
+		fail("first-round-failed", "round 1 against https://as.example with valid metadata failed: %v", err)
+		return "", bad, sig, len(s.urls)
+	}
+	ts1, _ := h.TokenSource(context.Background())
+	if ts1 == oauth2.TokenSource(initial) {
+		fail("success-without-token", "round 1 returned nil but installed no token source")
+	}
+	tokenRequests1 := len(s.tokenRequests)
+	round = 2
+	s.prmNamesAS = secondAS
+	err2 := authorize()
+	steps = len(s.urls) + s.fetcherCalled
+	ts2, _ := h.TokenSource(context.Background())
+	if s.badURL != "" {
+		fail("request-to-non-https-non-loopback-url", "a request went to %q", s.badURL)
+	}
+	for _, tr := range s.tokenRequests[tokenRequests1:] {
+		if clientCfg == "prereg-for-as.example" && secondAS != "https://as.example" && strings.Contains(tr, "client_id=prereg") {
+			fail("preregistered-credentials-used-with-other-issuer", "round 2: credentials pre-registered for https://as.example were presented to %s", tr)
+		}
+		if secondState == 1 {
+			fail("code-exchanged-despite-state-mismatch", "round 2: the code was exchanged although the returned state differs (%s)", tr)
+		}
+	}
+	if clientCfg == "prereg-for-as.example" && secondAS != "https://as.example" {
+		for _, iss := range issuersUsed[1:] {
+			if iss == secondAS {
+				fail("preregistered-client-sent-to-other-issuer", "round 2: the user was sent to %s with the client pre-registered for https://as.example", iss)
+			}
+		}
+		if err2 == nil {
+			fail("preregistered-issuer-binding-ignored", "round 2 against %s succeeded with a client pre-registered for https://as.example", secondAS)
+		}
+	}
+	if err2 != nil && ts2 != ts1 {
+		fail("token-installed-despite-error", "round 2 returned %v but the installed token source changed", err2)
+	}
+	if err2 == nil && secondState == 1 {
+		fail("success-despite-state-mismatch", "round 2 succeeded although the returned state was altered")
+	}
+	cls := "round2-error"
+	if err2 == nil {
+		cls = "round2-authorized"
+	}
+	return fmt.Sprintf("%s config=%s second-as=%s", cls, clientCfg, secondAS), bad, sig, steps
+}
+
 func TestVerifC15(t *testing.T) {
 	env := verifx.LoadEnv("C15")
 	env.Run([]*verifx.Scenario{{
@@ -306,6 +417,13 @@ func TestVerifC15(t *testing.T) {
 		Exec: func(prefix []verifx.Point) *verifx.Outcome {
 			ch := &verifx.Chooser{Prefix: prefix}
 			obs, bad, sig, steps := c15Run(ch)
+			return &verifx.Outcome{Trace: ch.Trace, Steps: steps, Obs: obs, Bad: bad, Sig: sig}
+		},
+	}, {
+		Name: "two-rounds-on-one-handler", Budget: 0,
+		Exec: func(prefix []verifx.Point) *verifx.Outcome {
+			ch := &verifx.Chooser{Prefix: prefix}
+			obs, bad, sig, steps := c15TwoRounds(ch)
 			return &verifx.Outcome{Trace: ch.Trace, Steps: steps, Obs: obs, Bad: bad, Sig: sig}
 		},
 	}})
